@@ -889,12 +889,63 @@ Proof.
   destruct Hin as [->|Hin]; [lia|]. apply IH; [lia|assumption].
 Qed.
 
+(* the largest number of fields of a struct anywhere in a descriptor *)
+Fixpoint desc_maxfields (d : tdesc) : nat :=
+  match d with
+  | DScalar _ | DString _ => O
+  | DStruct fs => Nat.max (length fs) (fold_right (fun f m => Nat.max (desc_maxfields (snd f)) m) O fs)
+  | DMap dk dv => Nat.max (desc_maxfields dk) (desc_maxfields dv)
+  | DList _ de => desc_maxfields de
+  end.
+
+Lemma desc_maxfields_field (fs : list (fmeta * tdesc)) N : (desc_maxfields (DStruct fs) <= N)%nat ->
+  (length fs <= N)%nat /\ forall fl, In fl fs -> (desc_maxfields (snd fl) <= N)%nat.
+Proof.
+  cbn [desc_maxfields]. intros H. split; [lia|].
+  assert (H' : (fold_right (fun f m => Nat.max (desc_maxfields (snd f)) m) O fs <= N)%nat) by lia. clear H.
+  induction fs as [|f fs IH]; cbn [fold_right In] in *; intros fl Hin; [contradiction|].
+  destruct Hin as [->|Hin]; [lia|]. apply IH; [lia|assumption].
+Qed.
+
+(* handleUnsets scans the fields in ascending id: a permutation of the declared fields *)
+Lemma insert_fld_length f l : length (insert_fld f l) = S (length l).
+Proof.
+  induction l as [|g l IH]; cbn [insert_fld]; [reflexivity|].
+  destruct (f_id (fst f) <=? f_id (fst g)); cbn [length]; [reflexivity|]. rewrite IH. reflexivity.
+Qed.
+
+Lemma insert_fld_in f l x : In x (insert_fld f l) -> x = f \/ In x l.
+Proof.
+  induction l as [|g l IH]; cbn [insert_fld].
+  - intros [<-|[]]. left; reflexivity.
+  - destruct (f_id (fst f) <=? f_id (fst g)).
+    + intros [<-|H]; [left; reflexivity|right; exact H].
+    + intros [<-|H]; [right; left; reflexivity|]. destruct (IH H) as [->|H']; [left; reflexivity|right; right; exact H'].
+Qed.
+
+Lemma sort_flds_length fs : length (sort_flds fs) = length fs.
+Proof.
+  unfold sort_flds. induction fs as [|f fs IH]; cbn [fold_right length]; [reflexivity|].
+  rewrite insert_fld_length. fold (sort_flds fs) in *. rewrite IH. reflexivity.
+Qed.
+
+Lemma sort_flds_in fs x : In x (sort_flds fs) -> In x fs.
+Proof.
+  unfold sort_flds. induction fs as [|f fs IH]; cbn [fold_right In]; [tauto|].
+  intros H. apply insert_fld_in in H. destruct H as [->|H]; [left; reflexivity|right; apply IH; exact H].
+Qed.
+
 Section T2JLinear.
   Variable fd : Z -> list Z.
   Variable o : Z.
-  Variables F M K : nat.
+  Variables F M N K : nat.
   Hypothesis fd_le : forall b, (length (fd b) <= F)%nat.
   Hypothesis K_ge : (13 + F + M <= K)%nat.
+  (* what handleUnsets may write at the STOP byte of a struct with at most N fields and keys of at most M characters
+     (with the closing brace), plus the opening brace and one separator, is paid for by the STOP byte *)
+  Hypothesis unsets_le : forall (fs : list (fmeta * tdesc)) bm c tl, (length fs <= N)%nat ->
+    (forall f, In f fs -> (length (quote_ref (f_key (fst f))) <= M)%nat) ->
+    walk_unsets fd o fs bm c = Some tl -> (length tl + 2 <= K)%nat.
 
   (* "txt plus s more characters are paid for by the bytes between bs and r, at K characters a byte" *)
   Definition paid (s : nat) (txt bs r : list Z) : Prop := (length txt + s + K * length r <= K * length bs)%nat.
@@ -943,9 +994,9 @@ Section T2JLinear.
   Qed.
 
   (* the key text AND the ':' that follows it *)
-  Lemma walk_key_paid dk bs txt r : walk_key o dk bs = Some (txt, r) -> paid 1 txt bs r.
+  Lemma walk_key_t_paid t bs txt r : walk_key_t o t bs = Some (txt, r) -> paid 1 txt bs r.
   Proof.
-    unfold walk_key, walk_key_t. generalize (desc_type dk). intros t.
+    unfold walk_key_t.
     destruct (t =? T_BYTE).
     { destruct (rd_int 1 bs) as [[z r1]|] eqn:E; [|discriminate]. intros H; inversion H; subst.
       apply rd_int_fmt in E; [|lia]. destruct E as (E1 & E2 & _). apply (paid_take _ _ _ _ 1%nat); [assumption|].
@@ -968,78 +1019,127 @@ Section T2JLinear.
     pose proof (quote_ref_le s). nia.
   Qed.
 
+  Lemma walk_key_paid dk bs txt r : walk_key o dk bs = Some (txt, r) -> paid 1 txt bs r.
+  Proof. apply walk_key_t_paid. Qed.
+
   Lemma sep_le c : (length (sep c) <= 1)%nat.
   Proof. destruct c; cbn; lia. Qed.
 
+  (* value mapping (api.js_conv): quoted scalars, or a list of them *)
+  Lemma walk_vm_scalar_paid t bs txt r : walk_vm_scalar fd o t bs = Some (txt, r) -> paid 1 txt bs r.
+  Proof.
+    unfold walk_vm_scalar. destruct (t =? T_DOUBLE); [|apply walk_key_t_paid].
+    destruct (rd_uint 8 bs) as [[z r1]|] eqn:E; [|discriminate]. destruct (f64_is_finite z); [|discriminate].
+    intros H; inversion H; subst. apply rd_uint_len in E. apply (paid_take _ _ _ _ 8%nat); [assumption|].
+    cbn [length]. rewrite app_length. cbn [length]. pose proof (fd_le z). lia.
+  Qed.
+
+  Lemma walk_vm_elems_paid : forall n et c bs txt r,
+    walk_vm_elems fd o n et c bs = Some (txt, r) -> (length txt + K * length r <= 1 + K * length bs)%nat.
+  Proof.
+    induction n as [|n IH]; intros et c bs txt r; cbn [walk_vm_elems].
+    - intros H; inversion H; subst. cbn [length]. lia.
+    - destruct (walk_vm_scalar fd o et bs) as [[t1 r1]|] eqn:E1; [|discriminate]. apply walk_vm_scalar_paid in E1.
+      destruct (walk_vm_elems fd o n et true r1) as [[tl r2]|] eqn:E2; [|discriminate]. apply IH in E2.
+      intros H; inversion H; subst. unfold paid in *. rewrite !app_length. pose proof (sep_le c). lia.
+  Qed.
+
+  Lemma walk_vm_paid d bs txt r : walk_vm fd o d bs = Some (txt, r) -> paid 1 txt bs r.
+  Proof.
+    unfold walk_vm. destruct d as [t|b|fs|dk dv|s de]; try apply walk_vm_scalar_paid.
+    destruct s; [apply walk_vm_scalar_paid|].
+    destruct bs as [|et r0]; [discriminate|].
+    destruct (negb (valid_ttype et)); [discriminate|].
+    destruct (skip_count r0) as [[sz r2]|] eqn:Ec; [|discriminate]. apply skip_count_len in Ec. destruct Ec as (Ec & _).
+    destruct (sz >? zlen r2); [discriminate|].
+    destruct (walk_vm_elems fd o (Z.to_nat sz) et false r2) as [[t r3]|] eqn:E; [|discriminate]. apply walk_vm_elems_paid in E.
+    intros H; inversion H; subst. unfold paid. cbn [length]. rewrite Ec. lia.
+  Qed.
+
   Section LoopsPaid.
     Variable rec : tdesc -> list Z -> option (list Z * list Z).
-    Hypothesis rec_paid : forall d b t r, (desc_maxkey d <= M)%nat -> rec d b = Some (t, r) -> paid 1 t b r.
+    Variable bx : fmeta -> bool.
+    Hypothesis rec_paid : forall d b t r, (desc_maxkey d <= M)%nat -> (desc_maxfields d <= N)%nat ->
+      rec d b = Some (t, r) -> paid 1 t b r.
 
     (* the fields and the closing brace, with room for the opening brace and the separator after the struct *)
-    Lemma walk_fields_paid : forall f fs c bm bs txt r,
-      (forall fl, In fl fs -> (length (quote_ref (f_key (fst fl))) <= M)%nat /\ (desc_maxkey (snd fl) <= M)%nat) ->
-      walk_fields o rec f fs c bm bs = Some (txt, r) -> paid 2 txt bs r.
+    Lemma walk_fields_paid : forall f fs c bm bs txt r, (length fs <= N)%nat ->
+      (forall fl, In fl fs -> (length (quote_ref (f_key (fst fl))) <= M)%nat /\ (desc_maxkey (snd fl) <= M)%nat /\
+                              (desc_maxfields (snd fl) <= N)%nat) ->
+      walk_fields fd o rec bx f fs c bm bs = Some (txt, r) -> paid 2 txt bs r.
     Proof.
-      induction f as [|f IH]; intros fs c bm bs txt r Hfs; cbn [walk_fields]; [discriminate|].
+      induction f as [|f IH]; intros fs c bm bs txt r Hn Hfs; cbn [walk_fields]; [discriminate|].
       destruct bs as [|t r0]; [discriminate|].
       destruct (negb (valid_ttype t)); [discriminate|].
       destruct (t =? 0).
-      { destruct (bm_missing fs bm); [discriminate|]. intros H; inversion H; subst.
-        apply (paid_take _ _ _ _ 1%nat); [reflexivity|]. cbn [length]. lia. }
+      { destruct (walk_unsets fd o (sort_flds fs) bm c) as [tl|] eqn:Eu; [|discriminate]. intros H; inversion H; subst.
+        apply (paid_take _ _ _ _ 1%nat); [reflexivity|].
+        apply unsets_le in Eu; [lia|rewrite sort_flds_length; assumption|].
+        intros f0 Hin. apply sort_flds_in in Hin. apply (Hfs f0 Hin). }
       destruct (rd_int 2 r0) as [[id r2]|] eqn:E2; [|discriminate]. apply rd_int_len in E2.
       destruct (T2J.find_field fs id) as [fl|] eqn:Ef.
-      - apply find_field_in in Ef. destruct (Hfs fl Ef) as [Hk Hd].
-        destruct (rec (snd fl) r2) as [[t1 r3]|] eqn:E3; [|discriminate]. apply (rec_paid _ _ _ _ Hd) in E3.
-        destruct (walk_fields o rec f fs true (bm_clear id bm) r3) as [[tl r4]|] eqn:E4; [|discriminate].
-        apply (IH _ _ _ _ _ _ Hfs) in E4. intros H; inversion H; subst.
+      - apply find_field_in in Ef. destruct (Hfs fl Ef) as (Hk & Hd & Hd2).
+        destruct (bx (fst fl)).
+        { destruct (skip_go T_STRUCT r2) as [r3|] eqn:E3; [|discriminate]. apply skip_go_shrinks in E3.
+          intros H. apply (IH _ _ _ _ _ _ Hn Hfs) in H. unfold paid in *. cbn [length]. rewrite E2.
+          assert (K * length r3 <= K * length r2)%nat by (apply Nat.mul_le_mono_l; lia). lia. }
+        destruct (if o_value_mapping o && f_jsconv (fst fl) then walk_vm fd o (snd fl) r2 else rec (snd fl) r2)
+          as [[t1 r3]|] eqn:E3; [|discriminate].
+        assert (P3 : paid 1 t1 r2 r3).
+        { destruct (o_value_mapping o && f_jsconv (fst fl)); [eapply walk_vm_paid|eapply (rec_paid _ _ _ _ Hd Hd2)]; exact E3. }
+        clear E3. rename P3 into E3.
+        destruct (walk_fields fd o rec bx f fs true (bm_clear id bm) r3) as [[tl r4]|] eqn:E4; [|discriminate].
+        apply (IH _ _ _ _ _ _ Hn Hfs) in E4. intros H; inversion H; subst.
         clear H IH Hfs. unfold paid, quote_ref in *. repeat first [rewrite app_length in * | progress cbn [length] in * ]. rewrite E2.
         pose proof (sep_le c). lia.
       - destruct (o_disallow_unknown o); [discriminate|].
         destruct (skip_go t r2) as [r3|] eqn:E3; [|discriminate]. apply skip_go_shrinks in E3.
-        intros H. apply (IH _ _ _ _ _ _ Hfs) in H. unfold paid in *. cbn [length]. rewrite E2.
+        intros H. apply (IH _ _ _ _ _ _ Hn Hfs) in H. unfold paid in *. cbn [length]. rewrite E2.
         assert (K * length r3 <= K * length r2)%nat by (apply Nat.mul_le_mono_l; lia). lia.
     Qed.
 
     (* the elements and the closing bracket: the bracket is the one character not paid by an element *)
-    Lemma walk_elems_paid : forall n de c bs txt r, (desc_maxkey de <= M)%nat ->
+    Lemma walk_elems_paid : forall n de c bs txt r, (desc_maxkey de <= M)%nat -> (desc_maxfields de <= N)%nat ->
       walk_elems rec n de c bs = Some (txt, r) -> (length txt + K * length r <= 1 + K * length bs)%nat.
     Proof.
-      induction n as [|n IH]; intros de c bs txt r Hd; cbn [walk_elems].
+      induction n as [|n IH]; intros de c bs txt r Hd Hd2; cbn [walk_elems].
       - intros H; inversion H; subst. cbn [length]. lia.
-      - destruct (rec de bs) as [[t1 r1]|] eqn:E1; [|discriminate]. apply (rec_paid _ _ _ _ Hd) in E1.
-        destruct (walk_elems rec n de true r1) as [[tl r2]|] eqn:E2; [|discriminate]. apply (IH _ _ _ _ _ Hd) in E2.
+      - destruct (rec de bs) as [[t1 r1]|] eqn:E1; [|discriminate]. apply (rec_paid _ _ _ _ Hd Hd2) in E1.
+        destruct (walk_elems rec n de true r1) as [[tl r2]|] eqn:E2; [|discriminate]. apply (IH _ _ _ _ _ Hd Hd2) in E2.
         intros H; inversion H; subst. unfold paid in *. rewrite !app_length. pose proof (sep_le c). lia.
     Qed.
 
-    Lemma walk_pairs_paid : forall n dk dv c bs txt r, (desc_maxkey dv <= M)%nat ->
+    Lemma walk_pairs_paid : forall n dk dv c bs txt r, (desc_maxkey dv <= M)%nat -> (desc_maxfields dv <= N)%nat ->
       walk_pairs o rec n dk dv c bs = Some (txt, r) -> (length txt + K * length r <= 1 + K * length bs)%nat.
     Proof.
-      induction n as [|n IH]; intros dk dv c bs txt r Hd; cbn [walk_pairs].
+      induction n as [|n IH]; intros dk dv c bs txt r Hd Hd2; cbn [walk_pairs].
       - intros H; inversion H; subst. cbn [length]. lia.
       - destruct (walk_key o dk bs) as [[kt r0]|] eqn:E0; [|discriminate]. apply walk_key_paid in E0.
-        destruct (rec dv r0) as [[t1 r1]|] eqn:E1; [|discriminate]. apply (rec_paid _ _ _ _ Hd) in E1.
-        destruct (walk_pairs o rec n dk dv true r1) as [[tl r2]|] eqn:E2; [|discriminate]. apply (IH _ _ _ _ _ _ Hd) in E2.
+        destruct (rec dv r0) as [[t1 r1]|] eqn:E1; [|discriminate]. apply (rec_paid _ _ _ _ Hd Hd2) in E1.
+        destruct (walk_pairs o rec n dk dv true r1) as [[tl r2]|] eqn:E2; [|discriminate]. apply (IH _ _ _ _ _ _ Hd Hd2) in E2.
         intros H; inversion H; subst. unfold paid in *. rewrite !app_length. cbn [length]. rewrite app_length.
         pose proof (sep_le c). lia.
     Qed.
   End LoopsPaid.
 
-  Theorem t2j_walk_paid : forall n d bs txt r, (desc_maxkey d <= M)%nat ->
+  Theorem t2j_walk_paid : forall n d bs txt r, (desc_maxkey d <= M)%nat -> (desc_maxfields d <= N)%nat ->
     t2j_walk_gen fd o n d bs = Some (txt, r) -> paid 1 txt bs r.
   Proof.
-    induction n as [|n IH]; intros d bs txt r Hd; destruct d as [t|b|fs|dk dv|s de]; cbn [t2j_walk_gen];
+    induction n as [|n IH]; intros d bs txt r Hd Hd2; destruct d as [t|b|fs|dk dv|s de]; cbn [t2j_walk_gen];
       try discriminate; try apply walk_scalar_paid; try apply walk_string_paid.
-    - destruct (walk_fields o (t2j_walk_gen fd o n) (S (length bs)) fs false (bm_init fs) bs) as [[t r1]|] eqn:E; [|discriminate].
-      apply (walk_fields_paid _ IH) in E.
+    - destruct (walk_fields fd o (t2j_walk_gen fd o n) (fun _ => false) (S (length bs)) fs false (bm_init fs) bs) as [[t r1]|] eqn:E; [|discriminate].
+      apply desc_maxfields_field in Hd2. destruct Hd2 as [Hn Hf2].
+      apply (walk_fields_paid _ _ IH) in E.
       + intros H; inversion H; subst. unfold paid in *. cbn [length]. lia.
-      + intros fl Hin. eapply desc_maxkey_field; eassumption.
+      + assumption.
+      + intros fl Hin. destruct (desc_maxkey_field fs fl M Hd Hin). auto.
     - destruct bs as [|kt [|vt r0]]; try discriminate.
       destruct (negb (valid_ttype kt && valid_ttype vt)); [discriminate|].
       destruct (skip_count r0) as [[sz r2]|] eqn:Ec; [|discriminate]. apply skip_count_len in Ec. destruct Ec as (Ec & _).
       destruct (negb ((kt =? desc_type dk) && (vt =? desc_type dv))); [discriminate|].
       destruct (sz >? zlen r2); [discriminate|].
       destruct (walk_pairs o (t2j_walk_gen fd o n) (Z.to_nat sz) dk dv false r2) as [[t r3]|] eqn:E; [|discriminate].
-      apply (walk_pairs_paid _ IH) in E; [|cbn [desc_maxkey] in Hd; lia].
+      apply (walk_pairs_paid _ IH) in E; [|cbn [desc_maxkey] in Hd; lia|cbn [desc_maxfields] in Hd2; lia].
       intros H; inversion H; subst. unfold paid. cbn [length]. rewrite Ec. lia.
     - destruct bs as [|et r0]; try discriminate.
       destruct (negb (valid_ttype et)); [discriminate|].
@@ -1047,24 +1147,91 @@ Section T2JLinear.
       destruct (negb (et =? desc_type de)); [discriminate|].
       destruct (sz >? zlen r2); [discriminate|].
       destruct (walk_elems (t2j_walk_gen fd o n) (Z.to_nat sz) de false r2) as [[t r3]|] eqn:E; [|discriminate].
-      apply (walk_elems_paid _ IH) in E; [|cbn [desc_maxkey] in Hd; lia].
+      apply (walk_elems_paid _ IH) in E; [|cbn [desc_maxkey] in Hd; lia|cbn [desc_maxfields] in Hd2; lia].
       intros H; inversion H; subst. unfold paid. cbn [length]. rewrite Ec. lia.
   Qed.
 End T2JLinear.
 
-(* the text (and one more character) costs at most  13 + F + desc_maxkey d  characters per byte consumed, where F bounds
-   the double lexemes; in particular no output without input, and the output of a walk over bs is O(|bs|) *)
+(* ---- what handleUnsets writes at the STOP byte ---- *)
+Lemma zero_text_le fd F d : (forall b, (length (fd b) <= F)%nat) -> (length (zero_text fd d) <= 5 + F)%nat.
+Proof.
+  intros HF. destruct d as [t|b|fs|dk dv|s de]; cbn [zero_text length]; try lia.
+  destruct (t =? T_BOOL); [cbn; lia|]. destruct (t =? T_DOUBLE); [pose proof (HF 0); lia|]. cbn. lia.
+Qed.
+
+(* one member  ,"key":zero  per declared field at most, and the closing brace *)
+Lemma walk_unsets_len fd o F M : (forall b, (length (fd b) <= F)%nat) ->
+  forall (fs : list (fmeta * tdesc)) bm c tl, (forall f, In f fs -> (length (quote_ref (f_key (fst f))) <= M)%nat) ->
+  walk_unsets fd o fs bm c = Some tl -> (length tl <= length fs * (7 + F + M) + 1)%nat.
+Proof.
+  intros HF. induction fs as [|f fs IH]; intros bm c tl Hk; cbn [walk_unsets].
+  - intros H; inversion H; subst. cbn [length]. lia.
+  - assert (Hk' : forall g, In g fs -> (length (quote_ref (f_key (fst g))) <= M)%nat) by (intros g Hg; apply Hk; right; exact Hg).
+    assert (G : forall c', walk_unsets fd o fs bm c' = Some tl -> (length tl <= S (length fs) * (7 + F + M) + 1)%nat).
+    { intros c' H. apply (IH _ _ _ Hk') in H. cbn [Nat.mul]. lia. }
+    assert (W : forall c', match walk_unsets fd o fs bm true with
+                           | Some tl0 => Some (sep c' ++ quote_ref (f_key (fst f)) ++ 58 :: zero_text fd (snd f) ++ tl0)
+                           | None => None
+                           end = Some tl -> (length tl <= S (length fs) * (7 + F + M) + 1)%nat).
+    { intros c'. destruct (walk_unsets fd o fs bm true) as [tl0|] eqn:E; [|discriminate]. apply (IH _ _ _ Hk') in E.
+      intros H; inversion H; subst. clear H.
+      pose proof (Hk f (or_introl eq_refl)) as Hq. pose proof (zero_text_le fd F (snd f) HF) as Hz.
+      assert (Hs : (length (sep c') <= 1)%nat) by (destruct c'; cbn; lia). clear IH Hk Hk' G.
+      unfold quote_ref in *. repeat first [rewrite app_length in * | progress cbn [length] in * ]. cbn [Nat.mul]. lia. }
+    cbn [length]. destruct (negb (bm_isset bm (f_id (fst f)))); [apply G|].
+    destruct (f_req (fst f) =? 1).
+    + destruct (o_write_required o); [apply W|discriminate].
+    + destruct ((f_req (fst f) =? 0) && o_write_default o); [apply W|apply G].
+Qed.
+
+(* with WriteRequireField and WriteDefaultField off, handleUnsets writes the closing brace only *)
+Lemma walk_unsets_off fd o : o_write_required o = false -> o_write_default o = false ->
+  forall (fs : list (fmeta * tdesc)) bm c tl, walk_unsets fd o fs bm c = Some tl -> tl = [125].
+Proof.
+  intros Hr Hd. induction fs as [|f fs IH]; intros bm c tl; cbn [walk_unsets].
+  - intros H; inversion H; reflexivity.
+  - rewrite Hr, Hd, andb_false_r. destruct (negb (bm_isset bm (f_id (fst f)))); [apply IH|].
+    destruct (f_req (fst f) =? 1); [discriminate|apply IH].
+Qed.
+
+(* the text (and one more character) costs at most  (13 + F + desc_maxkey d) * (1 + desc_maxfields d)  characters per byte
+   consumed, where F bounds the double lexemes: the STOP byte of a struct may have to pay for one  ,"key":zero  per
+   declared field (WriteRequireField / WriteDefaultField).  In particular no output without input, and for a fixed
+   descriptor the output of a walk over bs is O(|bs|) *)
 Theorem t2j_walk_output_linear fd o F n d bs txt r : (forall b, (length (fd b) <= F)%nat) ->
+  t2j_walk_gen fd o n d bs = Some (txt, r) ->
+  (length txt + 1 <= (13 + F + desc_maxkey d) * (1 + desc_maxfields d) * (length bs - length r))%nat.
+Proof.
+  intros HF H. pose proof (t2j_walk_shrinks _ _ _ _ _ _ _ H) as Hl.
+  apply (t2j_walk_paid fd o F (desc_maxkey d) (desc_maxfields d) ((13 + F + desc_maxkey d) * (1 + desc_maxfields d)) HF) in H.
+  - unfold paid in H. rewrite Nat.mul_sub_distr_l. lia.
+  - nia.
+  - intros fs bm c tl Hn Hk Hu. apply (walk_unsets_len fd o F (desc_maxkey d) HF fs bm c tl Hk) in Hu.
+    assert (length fs * (7 + F + desc_maxkey d) <= desc_maxfields d * (7 + F + desc_maxkey d))%nat
+      by (apply Nat.mul_le_mono_r; exact Hn).
+    nia.
+  - apply Nat.le_refl.
+  - apply Nat.le_refl.
+Qed.
+
+(* with the two write options off the bound does not depend on the number of declared fields *)
+Theorem t2j_walk_output_linear_nowrite fd o F n d bs txt r : (forall b, (length (fd b) <= F)%nat) ->
+  o_write_required o = false -> o_write_default o = false ->
   t2j_walk_gen fd o n d bs = Some (txt, r) ->
   (length txt + 1 <= (13 + F + desc_maxkey d) * (length bs - length r))%nat.
 Proof.
-  intros HF H. pose proof (t2j_walk_shrinks _ _ _ _ _ _ _ H) as Hl.
-  apply (t2j_walk_paid fd o F (desc_maxkey d) (13 + F + desc_maxkey d) HF (Nat.le_refl _) n d bs txt r (Nat.le_refl _)) in H.
-  unfold paid in H. rewrite Nat.mul_sub_distr_l. lia.
+  intros HF Hr Hd H. pose proof (t2j_walk_shrinks _ _ _ _ _ _ _ H) as Hl.
+  apply (t2j_walk_paid fd o F (desc_maxkey d) (desc_maxfields d) (13 + F + desc_maxkey d) HF) in H.
+  - unfold paid in H. rewrite Nat.mul_sub_distr_l. lia.
+  - apply Nat.le_refl.
+  - intros fs bm c tl _ _ Hu. apply (walk_unsets_off fd o Hr Hd) in Hu. subst tl. cbn [length]. lia.
+  - apply Nat.le_refl.
+  - apply Nat.le_refl.
 Qed.
 
 Corollary t2j_at_output_linear fd o F n d bs c txt c' : (forall b, (length (fd b) <= F)%nat) -> (c <= length bs)%nat ->
-  t2j_at fd o n d bs c = Some (txt, c') -> (length txt + 1 <= (13 + F + desc_maxkey d) * (c' - c))%nat.
+  t2j_at fd o n d bs c = Some (txt, c') ->
+  (length txt + 1 <= (13 + F + desc_maxkey d) * (1 + desc_maxfields d) * (c' - c))%nat.
 Proof.
   intros HF Hc. unfold t2j_at.
   destruct (t2j_walk_gen fd o n d (skipn c bs)) as [[t r]|] eqn:E; [|discriminate]. intros H; inversion H; subst.
